@@ -81,6 +81,16 @@ def nested(xs):
     def f(v):
         return v * 2 if v % 2 else v
     return tuple(f(x) for x in xs)
+def fsets(xs):
+    seen = set()
+    out = []
+    for i in range(len(xs) - 1):
+        key = (frozenset((xs[i] % 3, xs[i + 1] % 3)), xs[i] % 2 == xs[i + 1] % 2)
+        if key in seen:
+            continue
+        seen.add(key)
+        out.append(i)
+    return tuple(out)
 def sorted_key(xs):
     return tuple(sorted(xs, key=lambda v: (-v % 3, v)))
 '''
@@ -101,7 +111,7 @@ CASES = {
     'condexpr': [(a, b) for a in small for b in small], 'guard': [(a, b) for a in small for b in small], 'match_': [(c,) for c in small],
     'zipped': [(l, m) for l in lists for m in lists], 'extend_comp': [(l,) for l in lists], 'anyall': [(l, t) for l in lists for t in (0, 2)],
     'chained': [(a, b, c) for a in (0, 1, 2) for b in (0, 1, 2) for c in (0, 1, 2)], 'swap': [(a, b) for a in small for b in small],
-    'nested': [(l,) for l in lists], 'sorted_key': [(l,) for l in lists],
+    'nested': [(l,) for l in lists], 'fsets': [(l,) for l in lists + [(1, 2, 4, 5, 1, 2), (3, 0, 0, 3, 6, 9)]], 'sorted_key': [(l,) for l in lists],
 }
 
 
